@@ -88,7 +88,8 @@ func normTypeName(s string) string {
 func c09(r *core.Run) {
 	r.Explanation = "Decided clauses: (R1) single source of the decision: the interpreter's casting visitor, the VM's opFailableCast/opForceCast, isInstance and Type.isSubtype obtain their verdict from the subtype relation (sema.IsSubType / IsSubType / IsSubTypeOfSemaType) on the value's dynamic type; " +
 		"the failable cast yields nil and the force cast raises ForceCastTypeMismatchError exactly on the false outcome of that same test; (R2) the optional-unboxing guard that precedes the test is the same in both engines: " +
-		"both keep optionals exactly for the targets AnyStruct and AnyResource."
+		"both keep optionals exactly for the targets AnyStruct and AnyResource; " +
+		"(R3) the run-time subtype test starts with a type-equality shortcut: every Equal method of the static types that compares collections element-wise uses a universal quantifier (ForAllKeys / ForAll), never an existential one, and only after comparing the sizes."
 	r.NotDecided = "equality of cast results and type-test results on all values."
 	w := r.W
 	named := func(n string) func(*types.Func) bool {
@@ -130,6 +131,7 @@ func c09(r *core.Run) {
 
 	castUnboxAgreement(r, "R2.unbox")
 	r.Floor("R2.unbox", 1)
+	c09EqualQuantifiers(r)
 	_ = named
 }
 
@@ -163,4 +165,49 @@ func castUnboxAgreement(r *core.Run, rule string) {
 		r.Check(ok1 && ok2 && strings.Join(gi, ",") == strings.Join(gv, ",") && len(gi) == 2, rule, "castValueAndValueType: optional-preserving targets agree", fi.Pos(),
 			"both engines keep optionals for {"+strings.Join(gi, ",")+"}", "interpreter keeps optionals for {"+strings.Join(gi, ",")+"}, the VM for {"+strings.Join(gv, ",")+"}: a dynamic cast yields values of different dynamic type in the two engines")
 	}
+}
+
+// c09EqualQuantifiers: R3 — interpreter.IsSubType answers true as soon as subType.Equal(superType): an Equal of a static
+// type (or authorization) that is too generous makes isInstance and the VM's casts accept values whose run-time type is
+// not a subtype of the target. Where such an Equal compares two key sets with an ordered-map quantifier it must be the
+// universal one, guarded by a comparison of the two sizes.
+func c09EqualQuantifiers(r *core.Run) {
+	const rule = "R3.equalquant"
+	w := r.W
+	n := 0
+	for _, fn := range w.SrcFuncsIn("interpreter") {
+		if fn.Parent() != nil || fn.Name() != "Equal" || fn.Signature.Recv() == nil || w.File(fn.Pos()) != "interpreter/statictype.go" {
+			continue
+		}
+		for _, c := range core.Calls(fn, true) {
+			o := core.Callee(c)
+			if o == nil || o.Pkg() == nil || !strings.HasSuffix(o.Pkg().Path(), "/common/orderedmap") {
+				continue
+			}
+			switch o.Name() {
+			case "ForAllKeys", "ForAll", "ForAnyKey", "ForAny":
+			default:
+				continue
+			}
+			n++
+			universal := strings.HasPrefix(o.Name(), "ForAll")
+			// a size comparison (Len() != Len()) controls the quantified comparison
+			sized := false
+			if in, ok := c.(ssa.Instruction); ok {
+				for _, a := range core.ControllingConds(in) {
+					if a.Var.Call == nil {
+						continue
+					}
+					if strings.Contains(core.ValueDesc(a.Var.Call), "via:Len") {
+						sized = true
+					}
+				}
+			}
+			key := core.SSAKey(fn) + ": " + o.Name()
+			r.Check(universal && sized, rule, key, c.Pos(), "universal quantifier after a size comparison",
+				"an Equal of a static type compares two key sets with "+o.Name()+" (existential) or without comparing their sizes: different types compare equal, and the equality shortcut of the run-time subtype test accepts them")
+		}
+	}
+	r.Check(n >= 1, rule, "interpreter/statictype.go Equal methods: set comparisons", 0, itoa(n)+" found", "the set comparison of EntitlementSetAuthorization.Equal was not found")
+	r.Floor(rule, 2)
 }
